@@ -479,6 +479,213 @@ def deletes_from(fn, node, reg):
     return False
 
 
+# ---------------------------------------------------------------------------------------------------------------------------
+# R-C14-8: add -> (reassign) -> remove histories of ONE link, interpreted on the real registries (sa/concrete.py)
+LINK_USER = "L"
+
+
+def _link_status_enum(repo):
+    """LinkStatus as an IntEnum with the member values read from base.py (each member also under its upper/lower-case alias, as the
+    class's own __init__ registers them)."""
+    import enum
+    cls = repo.cls(BASE, "LinkStatus")
+    mem = []
+    for st in cls.body:
+        if isinstance(st, ast.Assign) and len(st.targets) == 1 and isinstance(st.targets[0], ast.Name) and isinstance(const(st.value), int):
+            n = st.targets[0].id
+            for alias in (n, n.upper(), n.lower()):
+                if alias not in [x[0] for x in mem]:
+                    mem.append((alias, const(st.value)))
+    if not mem:
+        raise AnchorError("LinkStatus members not found")
+    return enum.IntEnum("LinkStatus", mem)
+
+
+class LinkWorld(object):
+    """A model made of the repository's own registries, interpreted (never imported): WaterNetworkModel without its constructor, the five
+    registries built by their real constructors and _finalize_, three bare junctions N1..N3 placed in the node registry, four curves added
+    through CurveRegistry.add_curve.  Patterns are only names (add_usage does not look the pattern up).  isinstance is decided by the real
+    class hierarchy of elements.py, so an unreachable `elif isinstance(link, HeadPump)` after `if isinstance(link, Pump)` is simply not taken."""
+
+    CURVES = ("CRV_A", "CRV_B", "HL_A", "HL_B")
+
+    def __init__(self, repo):
+        import collections
+        from ..concrete import World, Instance, ClassRef, stdlib_overrides, Namespace
+        self.Instance = Instance
+        ov, _state = stdlib_overrides()
+        ov["six"] = Namespace("six", with_metaclass=lambda meta, *bases: (bases[0] if bases else object), string_types=(str,), integer_types=(int,))
+        # the ABC mix-ins contribute nothing the registries rely on here (every operator used is defined by the repository classes)
+        ov["collections.abc.MutableMapping"] = object
+        ov["collections.abc.MutableSet"] = object
+        ov["wntr.network.base.LinkStatus"] = _link_status_enum(repo)
+        self.world = World(repo, ov)
+        self.I = self.world.interp
+        wm = self.world.function(MODEL, "WaterNetworkModel")
+        if not isinstance(wm, ClassRef):
+            raise AnchorError("WaterNetworkModel is not a class of %s" % MODEL)
+        self.wn = Instance(wm)
+        self.wn._attrs.update(_options=None, _controls=collections.OrderedDict())
+        self.regs = collections.OrderedDict()
+        for attr, cname in (("_pattern_reg", "PatternRegistry"), ("_curve_reg", "CurveRegistry"), ("_node_reg", "NodeRegistry"),
+                            ("_link_reg", "LinkRegistry"), ("_sources", "SourceRegistry")):
+            self.regs[attr] = self.I.call(self.world.function(MODEL, cname), [self.wn], {})
+            self.wn._attrs[attr] = self.regs[attr]
+        for r in self.regs.values():
+            self.call(r, "_finalize_", self.wn)
+        jc = self.world.function(ELEM, "Junction")
+        for n in ("N1", "N2", "N3"):
+            j = Instance(jc)
+            j._attrs["_name"] = n
+            self.store(self.regs["_node_reg"])[n] = j
+        for c in self.CURVES:
+            self.call(self.regs["_curve_reg"], "add_curve", c, "HEAD", [(0.0, 40.0), (0.05, 30.0), (0.1, 10.0)])
+
+    def call(self, obj, meth, *a, **k):
+        return self.I.call(self.I.getattr_(obj, meth), list(a), k)
+
+    def store(self, reg, which="_data"):
+        d = reg._attrs.get(which)
+        if not isinstance(d, dict):
+            raise AnchorError("registry attribute %s is not a dict in the interpreted model" % which)
+        return d
+
+    def records(self):
+        """every usage record of every registry: {(registry attr, key, tag)}"""
+        out = set()
+        for attr, r in self.regs.items():
+            for key, tags in self.store(r, "_usage").items():
+                for t in self.I.iterate(tags):
+                    out.add((attr, key, tuple(t) if isinstance(t, (list, tuple)) else t))
+        return out
+
+    def views_holding(self, name):
+        """the link registry's containers (primary store and typed subsets) that still contain `name`"""
+        lr = self.regs["_link_reg"]
+        out = []
+        for attr, v in sorted(lr._attrs.items()):
+            if isinstance(v, dict) and attr != "_usage" and name in v:
+                out.append(attr)
+            elif isinstance(v, self.Instance) and v._cls.name == "OrderedSet" and self.I.compare(ast.In(), name, v, None):
+                out.append(attr)
+        return out
+
+
+def link_hierarchy(repo):
+    """{class: [bases]} of BASE/ELEM and the leaf (concrete) classes below Link, read from the source."""
+    bases = class_bases(repo)
+    links = [c for c in bases if kind_of_class(c, bases) == "link" and c != "Link"]
+    leaves = sorted(c for c in links if not any(c in (bases.get(o) or []) for o in links))
+    return bases, links, leaves
+
+
+def mro(cname, bases):
+    out, todo = [], [cname]
+    while todo:
+        c = todo.pop(0)
+        if c in out or c is None:
+            continue
+        out.append(c)
+        todo.extend(bases.get(c, []))
+    return out
+
+
+def filing_setters(repo, cname, bases):
+    """[(property, registry attr)] of the property setters along the class's MRO that file a usage record (contain an add_usage call)."""
+    out, seen = [], set()
+    for c in mro(cname, bases):
+        for rel in (ELEM, BASE):
+            if repo.has_cls(rel, c):
+                for key, m in repo.methods(repo.cls(rel, c)).items():
+                    if key.endswith(".setter") and key not in seen:
+                        seen.add(key)
+                        a = [u for u in usage_sites(m) if u[0] == "add_usage"]
+                        if a:
+                            out.append((key[:-7], a[0][1]))
+    return out
+
+
+def rule_link_histories(repo, chk):
+    """R-C14-8: for every way the public API creates a link (add_pipe, add_pump of each pump type, add_valve of each valve type) and for
+    every concrete class of the Link hierarchy: add the link, optionally re-assign its pattern / curve / start node through the public
+    setters, remove it -- afterwards no registry holds a usage record naming the link and no view of the link registry holds its name."""
+    from ..concrete import ProgramError, Unsupported
+    from ..src import ExtractError
+    bases, links, leaves = link_hierarchy(repo)
+    if len(leaves) < 3:
+        raise AnchorError("Link hierarchy not found (leaves: %s)" % leaves)
+    lrd = repo.func(MODEL, "LinkRegistry.__delitem__")
+    chk.fn(lrd)
+
+    def mine(recs):
+        return sorted(r for r in recs if isinstance(r[2], tuple) and r[2] and r[2][0] == LINK_USER)
+
+    def attempt(what, thunk):
+        try:
+            return thunk()
+        except ProgramError as e:
+            raise ExtractError("R-C14-8 %s: the interpreted program raised %s" % (what, e))
+
+    def verdict(lw, construct, created, filed, removed_how):
+        left = mine(lw.records())
+        views = lw.views_holding(LINK_USER)
+        if len([r for r in filed if r[0] == "_node_reg"]) < 2:
+            raise ExtractError("R-C14-8 %s: the link did not register at its two end nodes in the interpreted model (filed %s)" % (construct, filed))
+        chk.expect(not left and not views, "R-C14-8", construct, loc(lrd),
+                   "every usage record a link files while it exists must be released when it is removed: a record left behind names a user that no longer exists, and "
+                   "remove_curve / remove_pattern / remove_node of the element it points at is refused for ever (interpreted history on the repository's own registries; "
+                   "isinstance follows the real class hierarchy: %s is %s)" % (created, " < ".join(mro(created, bases)[:4])),
+                   expected="no record of %r and %r in no view after %s" % (LINK_USER, LINK_USER, removed_how),
+                   found="records left: %s; views still holding the name: %s; filed while it existed: %s" % (left, views, filed))
+        chk.sample({"rule": "R-C14-8", "history": construct, "class": created, "filed": [list(map(str, r)) for r in filed], "left": [list(map(str, r)) for r in left]})
+        return created
+
+    # ---- (a) histories through the public API of the model
+    hist = [("add_pipe", {}, "pipe")]
+    hist += [("add_pump", dict(pump_type=t, pump_parameter=("CRV_A" if t == "HEAD" else 20.0), pattern="PAT_A"), "%s pump" % t) for t in ("HEAD", "POWER")]
+    hist += [("add_valve", dict(valve_type=t, initial_setting=("HL_A" if t == "GPV" else 1.0)), t) for t in ("PRV", "PSV", "PBV", "FCV", "TCV", "GPV")]
+    reassign = (("speed_pattern_name", "PAT_B"), ("pump_curve_name", "CRV_B"), ("headloss_curve_name", "HL_B"), ("start_node", "N3"))
+    covered = set()
+    any_curve = any_pattern = False
+    for meth, kw, label in hist:
+        for variant in ("", " after re-assigning its pattern / curve / start node"):
+            lw = LinkWorld(repo)
+            attempt("%s(%s)" % (meth, label), lambda: lw.call(lw.wn, meth, LINK_USER, "N1", "N2", **kw))
+            link = lw.store(lw.regs["_link_reg"]).get(LINK_USER)
+            if not isinstance(link, lw.Instance):
+                raise ExtractError("R-C14-8: %s did not store the link %r in LinkRegistry._data" % (meth, LINK_USER))
+            if variant:
+                for prop, val in reassign:
+                    if link._cls.find(prop + ".setter")[0] is not None and (prop == "start_node" or any(prop == p for p, _r in filing_setters(repo, link._cls.name, bases))):
+                        v = lw.store(lw.regs["_node_reg"])[val] if prop == "start_node" else val
+                        attempt("%s.%s = %s" % (link._cls.name, prop, val), lambda: lw.I.setattr_(link, prop, v))
+            filed = mine(lw.records())
+            any_curve |= any(r[0] == "_curve_reg" for r in filed)
+            any_pattern |= any(r[0] == "_pattern_reg" for r in filed)
+            attempt("remove_link(%s)" % label, lambda: lw.call(lw.wn, "remove_link", LINK_USER))
+            covered.add(verdict(lw, "remove_link releases every usage record of a %s added by %s%s" % (label, meth, variant), link._cls.name, filed, "wn.remove_link"))
+    if not (any_curve and any_pattern):
+        raise ExtractError("R-C14-8: no history filed a curve and a pattern usage record: the interpreted model does not exercise the clause")
+    # ---- (b) every concrete class of the hierarchy, with every usage-filing property set
+    for cname in leaves:
+        lw = LinkWorld(repo)
+        lr = lw.regs["_link_reg"]
+        link = attempt("%s(...)" % cname, lambda: lw.I.call(lw.world.function(ELEM, cname), [LINK_USER, "N1", "N2", lr], {}))
+        for prop, reg in filing_setters(repo, cname, bases):
+            if prop in ("start_node", "end_node"):
+                continue
+            val = {"_curve_reg": "CRV_B", "_pattern_reg": "PAT_B"}.get(reg)
+            if val is None:
+                raise ExtractError("R-C14-8: %s.%s files on %s: no stand-in value known" % (cname, prop, reg))
+            attempt("%s.%s = %s" % (cname, prop, val), lambda: lw.I.setattr_(link, prop, val))
+        attempt("registry[%r] = %s" % (LINK_USER, cname), lambda: lw.I.setitem(lr, LINK_USER, link))
+        filed = mine(lw.records())
+        attempt("del registry[%r] (%s)" % (LINK_USER, cname), lambda: lw.I.call(lw.I.getattr_(lr, "__delitem__"), [LINK_USER], {}))
+        verdict(lw, "LinkRegistry.__delitem__ releases every usage record a %s can hold" % cname, cname, filed, "del registry[name]")
+    chk.note("R-C14-8: link classes created through the public API: %s; concrete classes of the hierarchy: %s" % (sorted(covered), leaves))
+    chk.floor("R-C14-8", 18 + 3)
+
+
 def run(repo, chk):
     bases = class_bases(repo)
     reg_classes = {n: repo.cls(MODEL, n) for n in ("PatternRegistry", "CurveRegistry", "SourceRegistry", "NodeRegistry", "LinkRegistry")}
@@ -546,6 +753,7 @@ def run(repo, chk):
     chk.floor("R-C14-1a", 8)
     chk.floor("R-C14-1b", 9)
     chk.floor("R-C14-1c", 8)
+    rule_link_histories(repo, chk)
 
     # ---------------------------------------------------------------- R-C14-2 / R-C14-4
     can_raise, ru = may_raise_keyerror_remove_usage(repo)
